@@ -485,6 +485,107 @@ def fn_operand_reuse(items):
     return {'n': n, 'nt': nt, 'viol': viol}
 
 
+def mcopy(m):
+    return m.clone() if hasattr(m, 'clone') else m.copy()
+
+
+def fn_evolve_multiply(items):
+    """item = [N, i1, pkg]: use -> evolve IN PLACE -> use again on ONE operand object.  Operand kinds: Pauli, polynomial
+    made by '+', polynomial made by reduce(), unreduced polynomial, monomial (pyclifford).  Evolutions: rotate_by(+-G) for
+    every Hermitian generator (N=3: a stride), transform_by(rotation map), masked rotate_by / transform_by on the last
+    qubit.  Before and after each evolution the object is multiplied from both sides (and with itself); every product must
+    be dense(current arrays of a) @ dense(b).  Nothing is assumed about the evolution itself (that is C02/C03)."""
+    from .. import dom
+    n = nt = 0
+    viol = []
+    for N, i1, pkg in items:
+        G = ref.all_g(N)
+        M = len(G)
+        if pkg == 'py':
+            mkP, mkM, mkQ = lib.P, lib.MONO, lib.POLY
+            rotmap = lambda g, p: lib.pc.clifford_rotation_map(lib.P(g, p))
+        else:
+            mkP, mkM, mkQ = lib.tP, None, lib.tPOLY
+            rotmap = lambda g, p: lib.torch_mods()['tst'].clifford_rotation_map(lib.tP(g, p))
+        herm = dom.hermitian_paulis(N, include_identity=False)
+        if N >= 3:
+            herm = herm[i1 % 5::5]
+        g_last = [(np.array([1, 0]), 0), (np.array([1, 1]), 2), (np.array([0, 1]), 0)]
+        lastmask = np.arange(N) == N - 1
+        if pkg != 'py':
+            lastmask = lib.torch_mods()['torch'].tensor(lastmask)
+        evols = [('rotate_by', (lambda o, g=g, p=p: o.rotate_by(mkP(g, p))), ref.g_to_str(g, p)) for g, p in herm]
+        evols += [('transform_by', (lambda o, g=g, p=p: o.transform_by(rotmap(g, p))), 'rotation map of ' + ref.g_to_str(g, p)) for g, p in herm[::3]]
+        if N >= 2:
+            evols += [('rotate_by-masked', (lambda o, g=g, p=p: o.rotate_by(mkP(g, p), mask=mcopy(lastmask))), ref.g_to_str(g, p) + ' on the last qubit') for g, p in g_last]
+            evols += [('transform_by-masked', (lambda o, g=g, p=p: o.transform_by(rotmap(g, p), mask=mcopy(lastmask))), 'rotation map of ' + ref.g_to_str(g, p) + ' on the last qubit') for g, p in g_last]
+        g1 = G[i1]
+        partner = [('Pauli', lambda: mkP(G[M - 1], 3)),
+                   ('PauliPolynomial', lambda: mkQ(G[[M // 2, M // 3, (2 * M) // 3]], np.array([2, 1, 0]), [1j, -0.5, 2.5]))]
+        for p1 in range(4):
+            kinds = [('Pauli', lambda: mkP(g1, p1)),
+                     ('sum', lambda: mkP(g1, p1) + mkP(G[(i1 + 1) % M], 1)),
+                     ('reduced', lambda: mkQ(np.array([g1, G[(i1 + 5) % M], g1]), np.array([p1, 2, 0]), [1.0, 2j, 0.5]).reduce()),
+                     ('unreduced', lambda: mkQ(np.array([g1, G[(i1 + 5) % M]]), np.array([p1, 3]), [1.0, -0.5]))]
+            if mkM is not None:
+                kinds.append(('PauliMonomial', lambda: mkM(g1, p1, 1 + 2j)))
+            for kn, kmk in kinds:
+                for en, ev, elabel in evols:
+                    try:
+                        a = kmk()
+                    except Exception:
+                        break          # this way of building the operand is not offered by the package
+                    stage = 'before'
+                    failed = False
+                    for step in range(2):
+                        for bn, bmk in partner:
+                            for order in ('a@b', 'b@a', 'a@a'):
+                                if order == 'a@a' and bn != 'Pauli':
+                                    continue
+                                b = bmk()
+                                try:
+                                    da, db = _dense(a, N), _dense(b, N)
+                                    x, y = (a, b) if order == 'a@b' else ((b, a) if order == 'b@a' else (a, a))
+                                    dx, dy = (da, db) if order == 'a@b' else ((db, da) if order == 'b@a' else (da, da))
+                                    res = x @ y
+                                except (NotImplementedError, TypeError):
+                                    continue
+                                except Exception as e:
+                                    viol.append(V('C01/evolve-multiply/%s/%s/%s/raises-%s' % (pkg, kn, en, type(e).__name__), [N, i1, pkg],
+                                                  '%s N=%d operand %s (%s phase %d) %s %s(%s): %s with %s raised %s' % (pkg, N, kn, ref.g_to_str(g1), p1, stage, en, elabel, order, bn, e)))
+                                    failed = True
+                                    break
+                                n += 1
+                                nt += int(stage == 'after')
+                                try:
+                                    ok = np.allclose(_dense(res, N), dx @ dy, atol=1e-5)
+                                    why = 'dense(result) != dense(x) @ dense(y) with the operands as they read at the time of the product'
+                                    if ok and not np.allclose(_dense(a, N), da, atol=1e-6):
+                                        ok, why = False, 'the product changed the operand'
+                                except Exception as e:
+                                    ok, why = False, 'unreadable: %s' % e
+                                if not ok:
+                                    viol.append(V('C01/evolve-multiply/%s/%s/%s/%s' % (pkg, kn, en, stage), [N, i1, pkg],
+                                                  '%s N=%d operand a = %s built from %s phase %d; %s the in-place %s(%s): %s with b = %s: %s' % (
+                                                      pkg, N, kn, ref.g_to_str(g1), p1, stage, en, elabel, order, bn, why)))
+                                    failed = True
+                                    break
+                            if failed:
+                                break
+                        if failed or step == 1:
+                            break
+                        try:
+                            ev(a)
+                        except (NotImplementedError, TypeError):
+                            break
+                        except Exception as e:
+                            viol.append(V('C01/evolve-multiply/%s/%s/%s/evolution-raises-%s' % (pkg, kn, en, type(e).__name__), [N, i1, pkg],
+                                          '%s N=%d operand %s: %s(%s) raised %s' % (pkg, N, kn, en, elabel, e)))
+                            break
+                        stage = 'after'
+    return {'n': n, 'nt': nt, 'viol': viol}
+
+
 def legs(tier):
     Ns = (1, 2, 3, 4) if tier == 'quick' else (1, 2, 3, 4, 5)
     out = []
@@ -521,4 +622,8 @@ def legs(tier):
     ru = [[N, i, pkg] for pkg in ('py', 'torch') for N in (1, 2) for i in range(4 ** N)] + [[3, i, pkg] for pkg in ('py', 'torch') for i in range(0, 64, 7 if tier == 'quick' else 1)]
     out.append(Leg('operand_reuse', fn_operand_reuse, ru, chunk=2,
                    bound='N<=2 (every left element; N=3: %s), both packages: one operand object (list element / scalar-array phase / earlier result) reused for all right operands; list, operands and kept results re-read afterwards' % ('every 7th' if tier == 'quick' else 'every')))
+    ev = [[N, i, pkg] for pkg in ('py', 'torch') for N in (1, 2) for i in range(4 ** N)] + [[3, i, pkg] for pkg in ('py', 'torch') for i in range(1, 64, 9 if tier == 'quick' else 2)]
+    out.append(Leg('evolve_then_multiply', fn_evolve_multiply, ev, chunk=1, exhaustive=False, supplementary=True,
+                   bound='N<=2 every string x 4 phases (N=3: %s string, 1/5 of the generators), both packages: one operand object (Pauli / sum / reduce()d / unreduced polynomial / monomial) multiplied from both sides and with itself, '
+                         'evolved IN PLACE by rotate_by(every signed generator), transform_by(rotation maps), masked rotate_by / transform_by on the last qubit, multiplied again; every product = dense product of the operands as they read then' % ('every 9th' if tier == 'quick' else 'every 2nd')))
     return out
